@@ -1,6 +1,10 @@
-"""C01 — finite-displacement solver: symmetry expansion kernels."""
+"""C01 — finite-displacement solver: symmetry expansion kernel and the displacement-direction search."""
 from contracts import c_dist as CD
+from contracts import py_displacement as PD
 
 
 def build(run):
     run.verify_c([CD.distribute_fc2_contract()])
+    PD.displacement_search(run)
+    run.not_decided += ["least-squares solve of the first-atom rows (_solve_force_constants_svd: numpy.linalg.pinv and its cutoff)",
+                        "phpy_compute_permutation", "get_least_displacements bookkeeping around the direction search, is_minus_displacement"]
